@@ -6,6 +6,7 @@ import sys
 from typing import TYPE_CHECKING, Any, Callable
 
 import sympy as sp
+from sympy.printing.precedence import PRECEDENCE
 
 from ampform.helicity.decay import determine_attached_final_state, list_decay_chain_ids
 from ampform.sympy import ExprClass, NumPyPrintable, unevaluated
@@ -274,7 +275,8 @@ class _BoostZMatrixImplementation(NumPyPrintable):
 
     def _numpycode(self, printer: NumPyPrinter, *args) -> str:
         printer.module_imports[printer._module].add("array")
-        _, gamma, gamma_beta, ones, zeros = map(printer._print, self.args)
+        _, gamma, _, ones, zeros = map(printer._print, self.args)
+        gamma_beta = printer.parenthesize(self.args[2], PRECEDENCE["Mul"], strict=True)
         return f"""array(
             [
                 [{gamma}, {zeros}, {zeros}, -{gamma_beta}],
@@ -422,12 +424,13 @@ class _RotationYMatrixImplementation(NumPyPrintable):
     def _numpycode(self, printer: NumPyPrinter, *args) -> str:
         printer.module_imports[printer._module].add("array")
         _, cos_angle, sin_angle, ones, zeros = map(printer._print, self.args)
+        minus_sin_angle = "-" + printer.parenthesize(self.args[2], PRECEDENCE["Mul"], strict=True)
         return f"""array(
             [
                 [{ones}, {zeros}, {zeros}, {zeros}],
                 [{zeros}, {cos_angle}, {zeros}, {sin_angle}],
                 [{zeros}, {zeros}, {ones}, {zeros}],
-                [{zeros}, -{sin_angle}, {zeros}, {cos_angle}],
+                [{zeros}, {minus_sin_angle}, {zeros}, {cos_angle}],
             ]
         ).transpose((2, 0, 1))"""
 
@@ -479,10 +482,11 @@ class _RotationZMatrixImplementation(NumPyPrintable):
     def _numpycode(self, printer: NumPyPrinter, *args) -> str:
         printer.module_imports[printer._module].add("array")
         _, cos_angle, sin_angle, ones, zeros = map(printer._print, self.args)
+        minus_sin_angle = "-" + printer.parenthesize(self.args[2], PRECEDENCE["Mul"], strict=True)
         return f"""array(
             [
                 [{ones}, {zeros}, {zeros}, {zeros}],
-                [{zeros}, {cos_angle}, -{sin_angle}, {zeros}],
+                [{zeros}, {cos_angle}, {minus_sin_angle}, {zeros}],
                 [{zeros}, {sin_angle}, {cos_angle}, {zeros}],
                 [{zeros}, {zeros}, {zeros}, {ones}],
             ]
